@@ -19,7 +19,7 @@ TEXT = ("Thin claim: exactness of the Myers edit script for all pairs of arrays 
         "base revision and the value returned are the same local, a hit returns the cached order unmodified, the cache "
         "guard is held across the whole reconstruction, keys are revisions (content-derived, C19), and only full orders "
         "are cached, and a cached order is never handed out mutably or removed."
-        " E2e: the diff routine receives the two input sequences themselves, not derived keys.")
+        " E2e: the diff routine receives the two input sequences themselves, not derived keys. E2f: a window of the inputs handed to the diff routine has a trimmed tail measured on what the trimmed head left over (dependent bounds). E3e: on every path the order the edit scripts start from is assigned from one ancestor only.")
 TECHNIQUE = 'static analysis over rustc MIR: diff-base = recorded parent (provenance), op-code/operand table agreement of edit-script writer and applier, cache transparency (who-may-write, held guard, lookup keys), history-walk must-pass rules'
 TRUSTED = ["rustc nightly MIR", "yavomrs::myers_unfilled produces a correct edit script", "Vec::drain / splice semantics", "C19"]
 
@@ -361,26 +361,45 @@ def run(facts, res):
         # nearest one that is cached or stored in full - and the scripts collected are those above it. A second assignment of the
         # starting order on the same path (a cached order installed after the collection stopped at a nearer full descriptor)
         # applies the collected scripts to the wrong array, and only on replicas that happen to hold that cache entry.
-        ap_sites = [(bi, t) for bi, t in rb.calls() if t.callee is not None and t.callee.target() == "utils::apply_diff_patch" and t.args]
+        # the order local: the one whose clone is cached under the base revision and which is returned afterwards
+        def _outer_vars(t_):
+            """named locals a term mentions directly (not those their definitions mention)"""
+            out_, st_ = set(), [t_]
+            while st_:
+                x_ = st_.pop()
+                if not isinstance(x_, tuple) or not x_:
+                    continue
+                if x_[0] == "var":
+                    out_.add(x_[1])
+                    continue
+                if x_[0] == "call":
+                    st_.extend(x_[2])
+                elif x_[0] in ("agg",):
+                    st_.extend(x_[3])
+                elif x_[0] in ("ref", "deref", "cast", "field", "downcast"):
+                    st_.append(x_[1])
+            return out_
+        ols = set()
+        for bi, t in puts:
+            vv_ = _outer_vars(arg_term(rb, t, 2, 16))
+            for ob, st in assigns_of_return(rb, "Ok"):
+                if cfg.dominates(bi, ob):
+                    ols |= vv_ & _outer_vars(du.rvalue_term(st.rv, 8))
+        ols = {l_ for l_ in ols if "Vec<" in rb.local_ty(l_)}
         n3e = 0
-        for bi, t in ap_sites:
-            x = arg_term(rb, t, 0, 6)
-            while x[0] in ("ref", "deref", "cast"):
-                x = x[1]
-            if x[0] != "var":
-                continue
-            ol = x[1]
+        for ol in sorted(ols):
             srcs = []
             for d in du.defs.get(ol, []):
                 if d.kind != "assign" or d.place.proj:
                     continue
-                tt = du.rvalue_term(d.rv, 14)
-                if contains_call(tt, "get_order"):
-                    srcs.append(d)
+                tt = peel(du.rvalue_term(d.rv, 14))
+                if tt[0] == "call" and callee_name(tt) in ("new", "with_capacity", "default"):
+                    continue        # the empty start value
+                srcs.append(d)
             n3e += len(srcs)
             twice = [(a_, b_) for a_ in srcs for b_ in srcs if a_ is not b_ and cfg.reaches(a_.block, b_.block)]
             res.instance("E3", "the starting order of the reconstruction is assigned from one ancestor per path (%d source assignments, none reachable from another): %s" % (
-                len(srcs), not twice), rb.loc(t.line))
+                len(srcs), not twice), rb.loc())
             if twice:
                 a_, b_ = twice[0]
                 res.violation("E3", "array-rebuilder|starting-order-assigned-twice",
@@ -388,7 +407,7 @@ def run(facts, res):
                               "the first ancestor are applied to the order of another one" % (
                                   rb.loc(rb.blocks[a_.block].stmts[a_.idx].line), rb.loc(rb.blocks[b_.block].stmts[b_.idx].line)),
                               rb.loc(rb.blocks[b_.block].stmts[b_.idx].line))
-        res.floor("E3", "source assignments of the starting order", n3e, 2)
+        res.floor("E3", "source assignments of the starting order", n3e, 1)
         # who-may-write: the reconstruction function is the only writer of the array cache
         writers = set()
         for ob in facts.repo_bodies():
